@@ -7,6 +7,7 @@ package parser
 
 import (
 	"fmt"
+	shared "github.com/aquilax/hranoprovod-cli/v3"
 	"io"
 	"os"
 	"runtime"
@@ -40,45 +41,58 @@ func TestVerifRace(t *testing.T) {
 		"a:\n  nosep\n  x: 1\nb:\n  q: abc\n", "a:\n  x: 1\n  q: abc\nb:\n  y: 1\n", "a:\n  x: 1\nb:\n  y: 2\n  nosep",
 	}
 	runs := 0
-	for it := 0; it < 500; it++ {
-		for _, in := range inputs {
-			for policy := 0; policy < 2; policy++ {
-				p := NewParser(NewDefaultConfig())
-				go p.ParseStream(&slowReader{r: strings.NewReader(in)})
-				done := make(chan string, 1)
-				go func() {
-					var sb strings.Builder
-					for {
-						select {
-						case n := <-p.Nodes:
-							sb.WriteString(n.Header)
-							for _, e := range n.Elements {
-								sb.WriteString(fmt.Sprint(e.Name, e.Value))
-							}
-							if n.Metadata != nil {
-								sb.WriteString(fmt.Sprint(len(*n.Metadata)))
-							}
-							if it%2 == 0 {
-								runtime.Gosched()
-							}
-						case err := <-p.Errors:
-							sb.WriteString(err.Error())
-							if policy == 0 {
-								done <- sb.String()
-								return
-							}
-						case <-p.Done:
-							done <- sb.String()
-							return
-						}
-					}
-				}()
+	// one pipeline: producer goroutine + consumer goroutine on a Parser of their own; on every third iteration the
+	// consumer also uses the callback parser on another input between two receives
+	pipe := func(in string, policy, it int) chan string {
+		p := NewParser(NewDefaultConfig())
+		go p.ParseStream(&slowReader{r: strings.NewReader(in)})
+		done := make(chan string, 1)
+		go func() {
+			var sb strings.Builder
+			for {
 				select {
-				case <-done:
-				case <-time.After(60 * time.Second):
-					t.Fatalf("VERIF-RACE-HANG: consumer policy %d on %q did not finish in 60s", policy, in)
+				case n := <-p.Nodes:
+					sb.WriteString(n.Header)
+					for _, e := range n.Elements {
+						sb.WriteString(fmt.Sprint(e.Name, e.Value))
+					}
+					if n.Metadata != nil {
+						sb.WriteString(fmt.Sprint(len(*n.Metadata)))
+					}
+					if it%2 == 0 {
+						runtime.Gosched()
+					}
+					if it%3 == 0 {
+						ParseStreamCallback(strings.NewReader("o:\n  p: 1\n  q\nr:\n  s: 2\n"), NewDefaultConfig(), func(*shared.ParserNode, error) (bool, error) { return false, nil })
+					}
+				case err := <-p.Errors:
+					sb.WriteString(err.Error())
+					if policy == 0 {
+						done <- sb.String()
+						return
+					}
+				case <-p.Done:
+					done <- sb.String()
+					return
 				}
-				runs++
+			}
+		}()
+		return done
+	}
+	for it := 0; it < 500; it++ {
+		for ii, in := range inputs {
+			for policy := 0; policy < 2; policy++ {
+				// two pipelines at the same time (a program reading its book and its log concurrently)
+				d1 := pipe(in, policy, it)
+				d2 := pipe(inputs[(ii+1+it)%len(inputs)], policy, it+1)
+				for _, d := range []chan string{d1, d2} {
+					select {
+					case <-d:
+					case <-time.After(60 * time.Second):
+						t.Fatalf("VERIF-RACE-HANG: consumer policy %d on %q did not finish in 60s", policy, in)
+					}
+					runs++
+				}
 			}
 		}
 	}
